@@ -107,7 +107,7 @@ def handle (w : List String) : Option String :=
       match BlockDec.new? 0 ⟨nat k * nat t, nat t, 1, nat n, nat al⟩ (nat k * nat t) with
       | none => err
       | some d0 =>
-        let sv := piSolver (be == "sparse")
+        let sv := if be.endsWith "ck" then piSolverChecked (be.startsWith "sparse") else piSolver (be == "sparse")
         let step (st : Option BlockDec × List String) (b : String) : Option BlockDec × List String :=
           match st.1 with
           | none => (none, st.2 ++ [err])
